@@ -249,8 +249,8 @@ fn syntax_code(msg: &str) -> String {
         ("bytevector literals can only contain integer literals", "bytes-range"),
         ("invalid datum comment", "bad-datum-comment"),
         ("unfinished commented-out expression", "unfinished-comment"),
-        ("unexpected char", "unexpected-char"),
         ("unexpected character, expected whitespace or newline", "invalid-ws"),
+        ("unexpected char", "unexpected-char"),
         ("invalid escape", "invalid-escape"),
         ("invalid character name", "invalid-char-name"),
         ("invalid character", "invalid-char"),
@@ -508,6 +508,16 @@ fn do_roundtrip(w: &mut World, spec: &str, reset: &mut bool) -> String {
         Ok(Err(e)) => (-1, e.replace(' ', "_")),
         Err(_) => (-2, "panic".into()),
     };
+    // the first datum alone (what one `(read port)` is expected to return)
+    let first = catch_unwind(AssertUnwindSafe(|| match Parser::new_flat(&text, None).next() {
+        None => "none".to_string(),
+        Some(Err(e)) => parse_error(&e).replace(' ', "_"),
+        Some(Ok(e)) => match TryFromExprKindForSteelVal::try_from_expr_kind_quoted(e) {
+            Ok(v) => dumps(&v).replace(' ', "_"),
+            Err(_) => "err_convert".to_string(),
+        },
+    }))
+    .unwrap_or_else(|_| "panic".into());
     let back = w.call("c12-read", vec![SteelVal::StringV(text.clone().into())]);
     let (back_s, equal) = match &back {
         Ok(b) => {
@@ -523,13 +533,14 @@ fn do_roundtrip(w: &mut World, spec: &str, reset: &mut bool) -> String {
         *reset = true;
     }
     format!(
-        "text={} built={} back={} equal={} count={} direct={}",
+        "text={} built={} back={} equal={} count={} direct={} first={}",
         hex(text.as_bytes()),
         dumps(&d).replace(' ', "_"),
         back_s.replace(' ', "_"),
         equal,
         count,
-        direct.replace(' ', "_")
+        direct.replace(' ', "_"),
+        first
     )
 }
 
